@@ -1,4 +1,20 @@
-/- C03 — property theorems (stub; filled in by the owning work package). -/
-import Rdm.Basic
+/-
+  C03 — utility methods report the value of their defining formula.
+-/
+import Rdm.Model.Utility
+import Rdm.Spec.C03
+import Rdm.Lemmas.NumRat
 namespace Rdm.Props.C03
+open Rdm
+
+def cexAlt : Alt Rat := ⟨"a", [("c", 200), ("g", 10)]⟩
+def cexWeights : List (WCrit Rat) := [⟨⟨"c", "cost", none⟩, 1⟩, ⟨⟨"g", "gain", none⟩, 2⟩]
+
+/-- The code's weighted sum does NOT multiply by the weight: with weights (1, 2) on a cost criterion
+    valued 200 and a gain criterion valued 10 the model (= the code, by correspondence) yields −190
+    while the defining formula yields −180.  (Known finding KF-C03-ws-ignores-weights.) -/
+theorem ws_counterexample :
+    (weightedSum cexAlt cexWeights).toOption = some (-190) ∧ Spec.C03.wsSpec cexAlt cexWeights = some (-180) := by
+  decide +kernel
+
 end Rdm.Props.C03
